@@ -16,7 +16,11 @@ for d in sorted(glob.glob(os.path.join(ROOT, "seeded", "*"))):
     conf = "%s / %s / %s" % ("yes" if c.get("patch_applies") else "NO", "yes" if c.get("demo_fails_with_patch") and c.get("demo_passes_without_patch") else "NO",
                                "0 regressions" if c.get("baseline_regressions_with_patch") == 0 else "%s regressions" % c.get("baseline_regressions_with_patch"))
     summ = re.sub(r"\s+", " ", m.get("summary", "") or m.get("what", ""))[:150].replace("|", "/")
-    keys = ", ".join(sorted(set(k.split(":")[0] for k in m.get("violation_keys", []))))
+    vk = m.get("violation_keys", [])
+    vk = [vk] if isinstance(vk, str) else vk
+    keys = ", ".join(sorted(set(k.split(":")[0].split(" ")[0] for k in vk)))
+    if not c:
+        conf = "own change (reverts a repair), not from a sub-agent"
     rows.append("| %s | %s | %s | %s | %s |" % (os.path.basename(d), m.get("property", ""), summ, conf, ("yes: " + keys) if m.get("detected_by_check") else "**no**"))
 p = os.path.join(ROOT, "DESIGN.md")
 s = open(p).read()
